@@ -90,7 +90,20 @@ struct Elem {
     for (int k = 0; k < n; k++) iv.push_back(IV[r.below(6)]);
   }
 };
-template <int K> struct ElemT : Elem {};
+// every element also has sub-objects of its own kind (one level deep): a method returning a collection of objects
+template <int K> struct ElemT : Elem {
+  std::vector<ElemT<K>> kids;
+  const std::vector<ElemT<K>>& subs() const { return kids; }
+  void fill(Rng& r, int depth = 0) {
+    Elem::fill(r);
+    kids.clear();
+    if (depth == 0) {
+      int n = r.below(4);
+      kids.resize(n);
+      for (auto& k : kids) k.fill(r, 1);
+    }
+  }
+};
 
 // ATLAS containers hold pointers (DataVector-like): iterating yields `const E*`
 template <class E> class PtrColl {
